@@ -71,6 +71,20 @@ def handle (line : String) : Json :=
         Json.mkObj [("model", enc (npUnit Generated.tables name dt su args k)),
                     ("spec", enc (specUnit cls name args k))]
       | none => errJson .badOp
+    | some "cpulist" =>
+      -- C04: `_get_cpu_list` called directly (bounding box in box fractions, bound keys, deep levelmax)
+      let parsed : Option (Hilbert.BBox × Nat × Nat × Nat × Nat × List Nat × Nat) := do
+        let b ← getField? j "bb"
+        let bb : Hilbert.BBox := { xmin := ← getRat? b "xmin", xmax := ← getRat? b "xmax", ymin := ← getRat? b "ymin",
+                                   ymax := ← getRat? b "ymax", zmin := ← getRat? b "zmin", zmax := ← getRat? b "zmax" }
+        pure (bb, ← getNat? j "lmax", ← getNat? j "levelmax", ← getNat? j "ncpu", ← getNat? j "ndim",
+              ← getNats? j "bk", (getNat? j "mincube").getD 0)
+      match parsed with
+      | some (bb, lmax, levelmax, ncpu, ndim, bk, mc) =>
+        Json.mkObj [("model", natsToJson (Hilbert.getCpuList Hilbert.Generated.table bb lmax levelmax ncpu ndim bk mc)),
+                    ("spec", natsToJson (Hilbert.getCpuList (Hilbert.HTable.ofLists Reference.hilbertNext Reference.hilbertDigit)
+                      bb lmax levelmax ncpu ndim bk mc))]
+      | none => errJson .badOp
     | some "binplan" =>
       -- C07: kernel and conversion factor `_binary_op` settles on for (operator, left unit, right unit)
       match (getStr? j "name").bind BinOp.fromString?, (getField? j "lu").bind U.fromJson?, (getField? j "ru").bind U.fromJson? with
